@@ -252,3 +252,51 @@ def reachable_funcs(prog, func, follow_registered=False, depth=6):
 
 
 __all__ = [n for n in dir() if not n.startswith("_")]
+
+
+def call_edges(ctx, f):
+    """[(node, callee Func, kind)] for direct calls and callables passed as
+    arguments (registrations, timers) from f's own scope."""
+    prog = ctx.prog
+    out = []
+    cf = ctx.cfg(f)
+    for n in cf.nodes:
+        for c in n.calls():
+            g = prog.resolve_call(f, c)
+            if g is not None:
+                out.append((n, g, "call"))
+            for a in list(c.args) + [k.value for k in c.keywords]:
+                if isinstance(a, (ast.Attribute, ast.Name, ast.Lambda)) or (
+                        isinstance(a, ast.Call) and unparse(a.func).split(".")[-1] == "partial"):
+                    h = prog.resolve_callable(f, a)
+                    if h is not None:
+                        out.append((n, h, "reg"))
+    return out
+
+
+def guarded_reach(ctx, starts, is_target_call, guard_atoms, max_funcs=200):
+    """Search from the functions in `starts` through call/registration edges
+    whose site is NOT dominated by one of guard_atoms [(text, polarity)].
+    Returns a path [(func qname, line, text)] to a call satisfying
+    is_target_call(func, call) at an unguarded site, or None."""
+    seen = set()
+    stack = [(s, []) for s in starts]
+    while stack:
+        f, path = stack.pop()
+        if f.qname in seen or len(seen) > max_funcs:
+            continue
+        seen.add(f.qname)
+        cf = ctx.cfg(f)
+        facts = ctx.facts(f)
+        for n in cf.nodes:
+            guarded = any(a in facts[n.id] for a in guard_atoms)
+            if guarded:
+                continue
+            for c in n.calls():
+                if is_target_call(f, c):
+                    return path + [(f.qname, n.lineno, n.text(70))]
+        for n, g, kind in call_edges(ctx, f):
+            if any(a in facts[n.id] for a in guard_atoms):
+                continue
+            stack.append((g, path + [(f.qname, n.lineno, "%s %s" % (kind, g.name))]))
+    return None
